@@ -34,11 +34,13 @@ static void body(mvprog::PT& p) {
         bool timed = (op == 'r' || op == 'w'), tryl = (op == 's' || op == 'x');
         int mode = wr ? WLOCK : RLOCK;
         uint64_t t0 = mv_now(); uint64_t s0 = ++G->seq; errno = 0; int r;
+        pmc_log("  [+%llu] T%d %c begins", (unsigned long long)(mv_now() - MV_T0), me, op);
         G->inlock[me] = true; if (wr && !tryl) G->writers_waiting++;
         if (timed) mv_register_deadline(mv_now() + TMO);
         if (G->q) r = tryl ? G->qrw.try_lock(mode) : G->qrw.lock(mode, timed ? Timeout(TMO) : Timeout());
         else r = G->rw.lock(mode, timed ? Timeout(TMO) : Timeout());
         int e = errno;
+        pmc_log("  [+%llu] T%d %c returns %d (errno %d)", (unsigned long long)(mv_now() - MV_T0), me, op, r, e);
         G->inlock[me] = false; if (wr && !tryl) G->writers_waiting--;
         if (r == 0) {
             if (wr) { if (G->writers || G->readers) pmc_violation("exclusion", "writer %d admitted while %d writer(s) and %d reader(s) hold the lock", me, G->writers, G->readers); G->writers++; G->last_writer_acq = mv_now(); }
@@ -46,7 +48,9 @@ static void body(mvprog::PT& p) {
                 if (G->writers) pmc_violation("exclusion", "reader %d admitted while a writer holds the lock", me); G->readers++;
                 // "after the last holder unlocks ... all waiting readers are admitted": a reader that was already waiting when the lock
                 // became free must not be admitted only after another reader's whole (200 us) hold
-                for (size_t fi = 0; fi < G->free_times.size(); fi++) {
+                // (only while the clock has moved solely because nobody could run: after a TIME deviation a runnable reader may simply
+                //  not have been scheduled for that long)
+                if (mv_time_devs() == 0) for (size_t fi = 0; fi < G->free_times.size(); fi++) {
                     uint64_t F = G->free_times[fi];
                     if (s0 < G->free_seq[fi] && mv_now() >= F + 150 && G->last_writer_acq < F && G->ww_at_free[fi] == 0)
                         pmc_violation("reader-admitted-late", "reader %d waited since +%llu us, the lock became free at +%llu us with no writer waiting, but it was admitted only at +%llu us (readers admitted one at a time?)",
@@ -62,6 +66,7 @@ static void body(mvprog::PT& p) {
             if (wr) G->writers--; else G->readers--;
             if (!G->writers && !G->readers) { G->free_times.push_back(mv_now()); G->free_seq.push_back(++G->seq); G->ww_at_free.push_back(G->writers_waiting); }
             G->released++;
+            pmc_log("  [+%llu] T%d unlocks", (unsigned long long)(mv_now() - MV_T0), me);
             int u = G->q ? G->qrw.unlock() : G->rw.unlock();
             if (u != 0) pmc_violation("unlock-failed", "unlock returned %d", u);
             p.result += "1";
